@@ -513,6 +513,20 @@ inductive ReachFull (g : List NodeInfo) : State → Prop where
   | init : ReachFull g (initFull g)
   | step {s e} : ReachFull g s → enabled s e = true → ReachFull g (apply s e)
 
+/-- events of a run without failures and without interruption -/
+def Ev.failureFree : Ev → Bool
+  | .jobend _ x => x == .complete
+  | .silentfail _ => false
+  | .W _ x => x != Sentinel.errors && x != Sentinel.assert
+  | .crash => false
+  | .restart => false
+  | .reset _ => false
+  | .killed _ => false   -- a job that dies without a trace
+  | _ => true
+
+def FailureFree (h : List Ev) : Prop := ∀ e ∈ h, e.failureFree = true
+
+
 /-! ## printing (driver) -/
 
 def NState.name : NState → String
